@@ -1465,14 +1465,14 @@ def cli_e2e(ctx, pid):
     return s
 
 PLANS["C05"] = dict(
-    modules=["Wx.Cli.Action", "Wx.Queue.Props", "Wx.Job.C04Sim", "Wx.Job.C06"],
-    theorems=["Ca.react_idle", "Ca.react_doNothing", "Ca.react_signal", "Ca.react_restart", "Ca.react_queue_first", "Ca.react_queue_again", "Ca.react_no_forceful",
+    modules=["Wx.Cli.Action", "Wx.Queue.Props", "Wx.Job.C04Sim", "Wx.Job.C06", "Wx.Cli.Compose", "Wx.Cli.ComposeThm", "Wx.Job.Reach"],
+    theorems=["Ca.cli_runs_never_overlap", "Ca.cli_never_kills_early", "Ca.cli_other_modes_never_kill", "Ca.runEvs_good", "Ca.maySend_gentle", "Jm.SimInv2.reach", "Ca.react_idle", "Ca.react_doNothing", "Ca.react_signal", "Ca.react_restart", "Ca.react_queue_first", "Ca.react_queue_again", "Ca.react_no_forceful",
               "Qm.perRun_fresh", "Qm.f10_today", "Qm.reorder_insufficient", "Jm.c04", "Jm.graceful_restart_step", "Jm.graceful_stop_step"],
     bins=[("cli", ["wxcliaction", "wxcli-main"])],
     streams=lambda ctx: c05_streams(ctx) + [c05_e2e(ctx), cli_e2e(ctx, "C05")],
     sources=["crates/cli/src/config.rs", "crates/cli/src/lib.rs", "crates/cli/src/args/events.rs", "crates/supervisor/src/job/job.rs"],
     rule="a case is one script (CLI flags, child behaviours, init / change / advance ops); non-trivial = at least two runs are started; distinct by (script, observation)",
-    assumptions=["the action handler's reaction is modelled as one function of (mode, job state when the query closure runs, queued-for record) composed with the job-task model by the driver",
+    assumptions=["the action handler's reaction is one function of (mode, job state when the query closure runs, queued-for record); its composition with the job-task model is the Lean model Wx/Cli/Compose.lean (the driver only parses), proved to stay inside the closure Jm.Reach of primitive job steps, so the whole-run job theorems apply to every CLI script",
                  "queue-mode freshness over ALL interleavings of handler, job task and follow-up tasks is proved on the abstract protocol model Wx/Queue (perRun_fresh); its tie to the code is this stream (deterministic schedules) plus the end-to-end stalled-stderr replay recorded in DESIGN.md",
                  "clap parsing and the normalise() functions run for real (hook H1)"],
     partial="the start-up event is outside the model (it is exercised end to end with the built binary: e2e-cli); the all-interleavings freshness theorem is about the abstract queue protocol, not about the composed model",
